@@ -226,6 +226,7 @@ def main():
   tier = sys.argv[1] if len(sys.argv) > 1 else 'quick'
   chk = Check('C07', tier)
   from checks_designs import FF_NAMES
+  if tier == 'thorough': FF_NAMES = list(FF_NAMES) + ['ShiftChain7', 'ListRot7', 'ManyBranchy10', 'ManyBranchy11', 'ManyBranchy21']
   items = []
   for d in FF_NAMES:
     for g in GROUP_NAMES:
